@@ -117,6 +117,8 @@ pub struct C02Cell {
     /// announce to (every member really runs at generation 0): 0 = they know
     /// the exact identity, 3 = they only know the address and made the rest up
     pub seed_gen: u8,
+    /// a member publishes a custom broadcast item after the cluster settled
+    pub custom_item: bool,
 }
 
 pub fn pattern_name(p: u8) -> &'static str {
@@ -125,7 +127,7 @@ pub fn pattern_name(p: u8) -> &'static str {
 
 impl C02Cell {
     pub fn label(&self) -> String {
-        format!("n={} {} mt={} fanout={} periodic={} packet={}{}", self.n, pattern_name(self.pattern), self.mt, self.fanout, self.periodic, self.packet, if self.seed_gen != 0 { " announce-by-address(made-up generation)" } else { "" })
+        format!("n={} {} mt={} fanout={} periodic={} packet={}{}", self.n, pattern_name(self.pattern), self.mt, self.fanout, self.periodic, self.packet, if self.seed_gen != 0 { " announce-by-address(made-up generation)" } else if self.custom_item { " custom-item-after-settling" } else { "" })
     }
     /// (time, joiner, seed)
     fn plan(&self) -> Vec<(u64, u8, u8)> {
@@ -169,13 +171,21 @@ pub fn run_c02(cell: &C02Cell, devs: &BTreeMap<usize, usize>) -> RunResult {
         sim.schedule(*t, Evt::Action { node: *k, code: 0 });
     }
     let last_join = plan.iter().map(|p| p.0).max().unwrap_or(0);
-    let horizon = last_join + (3 * n as u64 + 4) * PERIOD;
+    let mut horizon = last_join + (3 * n as u64 + 4) * PERIOD;
+    if cell.custom_item {
+        // once the cluster has settled (update backlogs drained) a member
+        // publishes a custom broadcast item; the run goes on for n+3 periods
+        sim.schedule(horizon, Evt::Action { node: 0, code: 1 });
+        horizon += (n as u64 + 3) * PERIOD;
+    }
     let all: Vec<u8> = (0..n as u8).collect();
     let mut res = RunResult::default();
     let mut discovered_at: Option<u64> = None;
     while let Some((t, e)) = sim.step(horizon) {
         let node = e.node();
-        if let Evt::Action { node, .. } = e {
+        if let Evt::Action { node, code: 1 } = e {
+            sim.call(node, &Ev::AddBroadcast(vec![1, 1, 9]));
+        } else if let Evt::Action { node, .. } = e {
             let seed = plan.iter().find(|p| p.1 == node).map(|p| p.2).unwrap_or(0);
             sim.spawn(node, node_id(node, false), &cfg);
             sim.call(node, &Ev::Announce(id(seed, cell.seed_gen)));
@@ -285,6 +295,7 @@ fn feed_completeness(rep: &mut Report) -> u64 {
 
 pub fn c02(tier: &str) -> Report {
     let th = tier == "thorough";
+    crate::e2::set_budget(if tier == "thorough" { 1500.0 } else { 240.0 });
     let mut rep = Report::new("C02", tier, "model_checking");
     let feed_evals = feed_completeness(&mut rep);
     rep.set("feed_completeness_cases(cluster sizes 2..24 x packet sizes x rng)", json!(feed_evals));
@@ -297,6 +308,8 @@ pub fn c02(tier: &str) -> Report {
             worlds.extend([(3, vec![0, 0], 3), (3, vec![0, 230], 3), (2, vec![0], 10)]);
         }
         for (n, joins, mt) in worlds {
+            // each world has its own wall budget (a cut world is reported as capped)
+            crate::e2::set_budget(if th { 300.0 } else { 120.0 });
             let cfg = Cfg { max_tx: mt, fanout: 3, ..base_cfg() };
             let xo = crate::e2x::XOpts { lat_menu: vec![1, 9], words: rng::menu(n + 1, n), cfg: cfg.clone(), max_states: if th { 6_000_000 } else { 400_000 } };
             let (st, bad) = crate::e2x::explore_fixpoint(crate::e2x::joining_world(n, &cfg, &joins), &xo);
@@ -312,6 +325,7 @@ pub fn c02(tier: &str) -> Report {
         }
         rep.set("exhaustive_fixpoint_worlds", json!(rows));
     }
+    crate::e2::set_budget(if th { 1200.0 } else { 240.0 });
     let mut cells: Vec<(C02Cell, usize)> = Vec::new();
     let ns: Vec<usize> = if th { vec![2, 3, 4, 5] } else { vec![2, 3, 4] };
     for &n in &ns {
@@ -347,9 +361,10 @@ pub fn c02(tier: &str) -> Report {
                             } else {
                                 1
                             };
-                            cells.push((C02Cell { n, pattern, mt, fanout, periodic, packet, assert_discovery, lat: vec![1, 9], seed_gen: 0 }, d));
+                            cells.push((C02Cell { n, pattern, mt, fanout, periodic, packet, assert_discovery, lat: vec![1, 9], seed_gen: 0, custom_item: false }, d));
                             if packet == 1400 {
-                                cells.push((C02Cell { n, pattern, mt, fanout, periodic, packet, assert_discovery, lat: vec![1, 9], seed_gen: 3 }, d.min(1)));
+                                cells.push((C02Cell { n, pattern, mt, fanout, periodic, packet, assert_discovery, lat: vec![1, 9], seed_gen: 3, custom_item: false }, d.min(1)));
+                                cells.push((C02Cell { n, pattern, mt, fanout, periodic, packet, assert_discovery, lat: vec![1, 9], seed_gen: 0, custom_item: true }, d.min(1)));
                             }
                         }
                     }
@@ -362,7 +377,7 @@ pub fn c02(tier: &str) -> Report {
         for pattern in 0..3u8 {
             for &mt in &[1u8, 3, 10] {
                 for &(packet, assert_discovery) in &[(9 + 5 * n, true), (9 + 5 * (n - 2), true), (1400, true)] {
-                    cells.push((C02Cell { n, pattern, mt, fanout: 3, periodic: false, packet, assert_discovery, lat: vec![1, 9], seed_gen: 0 }, usize::from(th && n <= 8)));
+                    cells.push((C02Cell { n, pattern, mt, fanout: 3, periodic: false, packet, assert_discovery, lat: vec![1, 9], seed_gen: 0, custom_item: false }, usize::from(th && n <= 8)));
                 }
             }
         }
@@ -433,11 +448,14 @@ pub struct C03Cell {
     /// 320 = the timeout falls due 20 ticks after a probe tick, inside the
     /// reply window of that round's Ping)
     pub suspect: u64,
+    /// long before the failure one Ack was slow (45 ticks): a probe round
+    /// that succeeded through the indirect path only
+    pub prior_indirect: bool,
 }
 
 impl C03Cell {
     pub fn label(&self) -> String {
-        format!("n={} failing={:?} kind={} renewable={} mt={} after-event={} phase={}{} suspect_to_down={}", self.n, self.failing, if self.leave { "leave" } else { "crash" }, self.renew, self.mt, self.at_event, self.phase, if self.bumped { " failing-members-refuted-before" } else { "" }, self.suspect)
+        format!("n={} failing={:?} kind={} renewable={} mt={} after-event={} phase={}{} suspect_to_down={}", self.n, self.failing, if self.leave { "leave" } else { "crash" }, self.renew, self.mt, self.at_event, self.phase, if self.bumped { " failing-members-refuted-before" } else if self.prior_indirect { " one-slow-ack-long-before" } else { "" }, self.suspect)
     }
 }
 
@@ -459,6 +477,11 @@ pub fn run_c03(cell: &C03Cell, devs: &BTreeMap<usize, usize>) -> RunResult {
             sim.call(*f, &Ev::Apply(vec![foca::Member::new(me, 0, State::Suspect)], true));
         }
         let until = sim.now + 4 * PERIOD;
+        while sim.step(until).is_some() {}
+    }
+    if cell.prior_indirect {
+        sim.delay_next_ack = Some(45);
+        let until = sim.now + (2 * n as u64 + 2) * PERIOD;
         while sim.step(until).is_some() {}
     }
     sim.chooser.deviations = devs.clone();
@@ -636,6 +659,7 @@ where
 
 pub fn c03(tier: &str) -> Report {
     let th = tier == "thorough";
+    crate::e2::set_budget(if tier == "thorough" { 1200.0 } else { 240.0 });
     let mut rep = Report::new("C03", tier, "fault_enumeration");
     let mut cells: Vec<(C03Cell, usize)> = Vec::new();
     let ns: Vec<usize> = if th { vec![2, 3, 4, 5] } else { vec![2, 3, 4] };
@@ -654,18 +678,22 @@ pub fn c03(tier: &str) -> Report {
                         while at < rot {
                             // deviation bound per cell
                             let d = if th { if n <= 3 { 2 } else { 1 } } else { 1 };
-                            cells.push((C03Cell { n, failing: failing.clone(), leave, renew, mt, at_event: at, phase: 17, bumped: false, suspect: SUSPECT }, d));
+                            cells.push((C03Cell { n, failing: failing.clone(), leave, renew, mt, at_event: at, phase: 17, bumped: false, suspect: SUSPECT, prior_indirect: false }, d));
                             // the timeout falls due inside the reply window of a probe round
                             if n <= 3 || th {
-                                cells.push((C03Cell { n, failing: failing.clone(), leave, renew, mt, at_event: at, phase: 17, bumped: false, suspect: SUSPECT + 20 }, usize::from(th && n <= 3)));
+                                cells.push((C03Cell { n, failing: failing.clone(), leave, renew, mt, at_event: at, phase: 17, bumped: false, suspect: SUSPECT + 20, prior_indirect: false }, usize::from(th && n <= 3)));
+                            }
+                            // a round that succeeded through the indirect path long before
+                            if n >= 3 && at % 2 == 0 {
+                                cells.push((C03Cell { n, failing: failing.clone(), leave, renew, mt, at_event: at, phase: 17, bumped: false, suspect: SUSPECT, prior_indirect: true }, usize::from(th && n <= 3)));
                             }
                             if at % 2 == 0 {
-                                cells.push((C03Cell { n, failing: failing.clone(), leave, renew, mt, at_event: at, phase: 17, bumped: true, suspect: SUSPECT }, usize::from(th)));
+                                cells.push((C03Cell { n, failing: failing.clone(), leave, renew, mt, at_event: at, phase: 17, bumped: true, suspect: SUSPECT, prior_indirect: false }, usize::from(th)));
                             }
                             // other relative alignments of the members' probe loops
                             if at % 3 == 0 && (th || n <= 3) {
                                 for phase in [0u64, 41] {
-                                    cells.push((C03Cell { n, failing: failing.clone(), leave, renew, mt, at_event: at, phase, bumped: false, suspect: SUSPECT }, d.min(1)));
+                                    cells.push((C03Cell { n, failing: failing.clone(), leave, renew, mt, at_event: at, phase, bumped: false, suspect: SUSPECT, prior_indirect: false }, d.min(1)));
                                 }
                             }
                             at += step;
@@ -713,14 +741,16 @@ pub struct C04Cell {
     pub flavour: u8,
     /// offset between the members' start instants during formation
     pub phase: u64,
+    /// suspect_to_down_after in ticks
+    pub suspect: u64,
 }
 
 impl C04Cell {
     pub fn label(&self) -> String {
-        format!("n={} notify_down={} renewable={} fanout={} mt={} flavour={} phase={} lost-datagram#{}", self.n, self.notify_down, self.renew, self.fanout, self.mt, ["plain", "one-slow-ack", "join-with-periodic-gossip", "members-refuted-before(incarnations 1,2,0..)"][self.flavour as usize], self.phase, self.drop)
+        format!("n={} notify_down={} renewable={} fanout={} mt={} flavour={} phase={} suspect_to_down={} lost-datagram#{}", self.n, self.notify_down, self.renew, self.fanout, self.mt, ["plain", "one-slow-ack", "join-with-periodic-gossip", "members-refuted-before(incarnations 1,2,0..)"][self.flavour as usize], self.phase, self.suspect, self.drop)
     }
     fn cfg(&self) -> Cfg {
-        Cfg { max_tx: self.mt, fanout: self.fanout, notify_down: self.notify_down, gossip: (self.flavour == 2).then_some((150, 1)), ..base_cfg() }
+        Cfg { max_tx: self.mt, fanout: self.fanout, notify_down: self.notify_down, gossip: (self.flavour == 2).then_some((150, 1)), suspect_to_down: self.suspect, ..base_cfg() }
     }
     fn lat(&self) -> Vec<u64> {
         vec![1, 9]
@@ -846,6 +876,7 @@ fn c04_window_datagrams(cell: &C04Cell) -> u64 {
 
 pub fn c04(tier: &str) -> Report {
     let th = tier == "thorough";
+    crate::e2::set_budget(if tier == "thorough" { 1200.0 } else { 240.0 });
     let mut rep = Report::new("C04", tier, "fault_enumeration");
     let mut cells: Vec<(C04Cell, usize)> = Vec::new();
     let ns: Vec<usize> = if th { vec![2, 3, 4, 5] } else { vec![2, 3, 4] };
@@ -870,12 +901,21 @@ pub fn c04(tier: &str) -> Report {
                                 if phase != 17 && !(th || (n <= 3 && flavour == 0)) {
                                     continue;
                                 }
-                                let proto = C04Cell { n, notify_down, renew, fanout, mt, drop: 0, flavour, phase };
+                                let proto = C04Cell { n, notify_down, renew, fanout, mt, drop: 0, flavour, phase, suspect: SUSPECT };
                                 let total = c04_window_datagrams(&proto);
                                 for drop in 0..total {
                                     let d = if th { if n <= 3 { 2 } else { 1 } } else if n <= 3 { 1 } else { 0 };
                                     let d = if phase == 17 { d } else { d.min(1) };
                                     cells.push((C04Cell { drop, ..proto.clone() }, d));
+                                }
+                                // the shortest grace period that still lets a suspect
+                                // refute in time: one probe period
+                                if flavour == 0 && phase == 17 && n <= 3 {
+                                    let proto = C04Cell { suspect: PERIOD, ..proto.clone() };
+                                    let total = c04_window_datagrams(&proto);
+                                    for drop in 0..total {
+                                        cells.push((C04Cell { drop, ..proto.clone() }, usize::from(th)));
+                                    }
                                 }
                             }
                         }
